@@ -145,7 +145,8 @@ class Runner:
 
         if self._fan is None:
             self._fan = jax.jit(jax.vmap(self.env.step, in_axes=(None, 0)))
-        return self._fan(state, jnp.asarray(actions))
+        # device_get: indexing NumPy leaves is far cheaper than indexing JAX arrays case by case
+        return jax.device_get(self._fan(state, jnp.asarray(actions)))
 
 
 def tree_index(tree: Any, i: int) -> Any:
